@@ -215,6 +215,12 @@ def run_verus_unit(prop, unit, workdir, out, tier, known):
         if unc:
             out.undecided.append('%s: %s calls helper(s) %s that are new in /repo and have no contract: cannot decide (%s)' % (unit, reg, unc, fl['message']))
             continue
+        if (reg in meta.get('changed_fns', []) and reg not in meta.get('degraded_fns', []) and fl['message'].startswith('assertion failed')
+                and not re.search(r'/\*\[C[0-9,C]+\]\*/', fl['clause'] or '')):
+            # a PROOF STEP (an assert of the annotations that carries no property tag) no longer goes through in a function whose code
+            # changed; Verus assumes it and goes on, so no contract clause was shown false: undecided, not an alarm
+            hint_only.append('%s/%s: proof step no longer goes through in changed code [%s]' % (unit, reg, re.sub(r'\s+', ' ', fl['clause'] or '')[:90]))
+            continue
         if reg in meta.get('degraded_fns', []):
             # DEGRADED function: its proof hints were dropped because the code they refer to changed. Only a postcondition of the function's
             # own contract that was provable WITHOUT any hint on the tree the contracts were written for (units/hintfree.json) still decides
